@@ -1,4 +1,13 @@
+mod ast;
+mod c04;
+mod c33;
+mod df;
+mod egen;
+mod rexpr;
+
 fn main() {
-    eprintln!("no sub-commands yet");
-    std::process::exit(2);
+    vf_kit::dispatch! {
+        "c04" => c04::C04,
+        "c33" => c33::C33,
+    }
 }
